@@ -48,6 +48,7 @@ MUST_COUNT = ["contract_evals_1d", "contract_evals_nd", "contract_evals_fill",
               "branch_ind_min_eq_guess_reached", "branch_ind_max_eq_guess_reached"]
 MIN_NONTRIVIAL = {"quick": 1000, "thorough": 20000}
 NCASES = {"quick": 2000, "thorough": 40000}
+NHIST = {"quick": 500, "thorough": 15000}
 LEVEL_TEXT = ("Seeded random exploration: every call of the real get_bin_on_value_1d, "
               "get_bin_on_value and histogram.fill made by the workload is evaluated by a live "
               "contract (index = number of edges not greater than the value, minus one; exactly "
@@ -196,6 +197,20 @@ def cases(tier, seed):
     # and between edges
     for name in ("range40+1e6", "pow2_0..40", "decades-30..30", "1e6+range40", "squares60"):
         yield {"k": "longmesh", "mesh": name}
+    # longer meshes still: 65..400 edges, widths over many orders of magnitude
+    for name in ("pow2_0..130", "pow2_0..300", "range200+1e9", "decades-150..150", "squares400",
+                 "1e9+range130", "halves300"):
+        yield {"k": "longmesh", "mesh": name}
+    # histories of one histogram: fills interleaved with the operations that replace or rescale
+    # its bins (scale, set_nevents), and with copies (copy.deepcopy, pickle - what Cache and the
+    # elements that copy their sequences do) that are then filled on beside the original
+    for i in range(NHIST[tier]):
+        rng = gen.rng_for(seed, "C06hist", i)
+        dim = rng.choice([1, 1, 2, 3])
+        axes = [rand_axis(rng, 8 if dim == 1 else 4) for _ in range(dim)]
+        yield {"k": "history", "dim": dim, "edges": axes[0] if dim == 1 else axes,
+               "form": "flat" if dim == 1 else "nested", "rs": "%s/C06/hist/%d" % (seed, i),
+               "nsample": 40, "ctype": "list", "target": rng.choice(["structure", "element"])}
     bad = [[], [0], [1.5], [0, 0], [1, 0], [0, 1, 1], [0, 2, 1], [0.0, 1.0, 1.0], [3, 2, 1],
            [0, 1, 2, 3, 3], [0, 1, 5, 4, 6], [[0, 1], [1]], [[0, 1], [2, 2]], [[0, 1], [3, 2]],
            [[1, 0], [0, 1]], [[0, 1], [0, 1], [5, 5]], [[0, 1], []], [[]],
@@ -264,6 +279,8 @@ def run_case(r, obs):
     try:
         if r["k"] == "longmesh":
             _long_mesh(r, obs, lena)
+        elif r["k"] == "history":
+            _history(r, obs, lena)
         elif r["k"] == "bad_edges":
             _bad_edges(r, obs, lena)
         elif r["k"] == "dim_mismatch":
@@ -297,7 +314,14 @@ def _long_mesh(r, obs, lena):
             "pow2_0..40": [2 ** i for i in range(41)],
             "decades-30..30": [10.0 ** i for i in range(-30, 31)],
             "1e6+range40": [-10 ** 6] + list(range(40)),
-            "squares60": [i * i for i in range(60)]}[r["mesh"]]
+            "squares60": [i * i for i in range(60)],
+            "pow2_0..130": [2 ** i for i in range(131)],
+            "pow2_0..300": [2.0 ** i for i in range(301)],
+            "range200+1e9": list(range(200)) + [10 ** 9],
+            "decades-150..150": [10.0 ** i for i in range(-150, 151)],
+            "squares400": [i * i for i in range(400)],
+            "1e9+range130": [-10 ** 9] + list(range(130)),
+            "halves300": [-(0.5 ** i) for i in range(300)]}[r["mesh"]]
     h = lena.structures.histogram(list(mesh))
     ref = [0] * (len(mesh) - 1)
     oor = 0
@@ -319,6 +343,129 @@ def _long_mesh(r, obs, lena):
               "histogram over %s filled with values on / beside / between its edges: bins %r, "
               "expected %r; n_out_of_range %r, expected %r" % (r["mesh"], h.bins, ref,
                                                                 h.n_out_of_range, oor))
+
+
+def _same(a, b):
+    """Equality that takes nan for equal to nan (a rescaled histogram may hold them)."""
+    return a == b or (a != a and b != b)
+
+
+def _history(r, obs, lena):
+    import copy
+    import pickle
+    rng = random.Random(r["rs"])
+    E, per_axis, pts = _coords(r, rng)
+    dim = len(E)
+    nbins = [len(a) - 1 for a in E]
+    element = r["target"] == "element"
+    if element:
+        el = lena.structures.Histogram(r["edges"])
+
+    def flat(h):
+        return [lena.structures.get_bin_on_index(list(idx), h.bins)
+                for idx in itertools.product(*[range(n) for n in nbins])]
+
+    class Track(object):
+        def __init__(self, h, name):
+            self.h, self.name = h, name
+            self.ref, self.oor = flat(h), h.n_out_of_range
+
+        def resync(self):
+            self.ref, self.oor = flat(self.h), self.h.n_out_of_range
+    tracks = [Track(el._hist if element else lena.structures.histogram(r["edges"]), "original")]
+    hist = []
+    n_in = n_out = 0
+    for j, pt in enumerate(pts):
+        # an operation between fills, now and then
+        x = rng.random()
+        t = rng.choice(tracks)
+        if x < 0.08:
+            tot = sum(t.ref)
+            if tot not in (0, 0.0) and tot == tot and abs(tot) != INF:
+                try:
+                    t.h.scale(rng.choice([1, 2.5, 10]))
+                    hist.append("%s.scale(x)" % t.name)
+                except Exception as e:  # pylint: disable=broad-except
+                    hist.append("%s.scale(x) raised %s" % (t.name, type(e).__name__))
+                t.resync()
+        elif x < 0.16:
+            if sum(t.ref) not in (0, 0.0):
+                try:
+                    t.h.set_nevents(rng.choice([1, 100, 7.5]),
+                                    include_out_of_range=rng.random() < 0.5)
+                    hist.append("%s.set_nevents" % t.name)
+                except Exception as e:  # pylint: disable=broad-except
+                    hist.append("%s.set_nevents raised %s" % (t.name, type(e).__name__))
+                t.resync()
+        elif x < 0.20:
+            t.h.scale()
+            hist.append("%s.scale()" % t.name)
+        elif x < 0.30 and len(tracks) < 4:
+            how = rng.choice(["copy.deepcopy", "pickle"])
+            try:
+                c = copy.deepcopy(t.h) if how == "copy.deepcopy" else pickle.loads(pickle.dumps(t.h))
+            except Exception as e:  # pylint: disable=broad-except
+                obs.fail("history:copy-raises:" + type(e).__name__,
+                         "%s of a histogram over %r raised %r after %r" % (how, r["edges"], e, hist))
+                return
+            hist.append("%s of %s" % (how, t.name))
+            obs.count("histogram_copies")
+            ct = Track(c, "%s(%s)" % (how, t.name))
+            if not obs.check(all(_same(a, b) for a, b in zip(ct.ref, t.ref))
+                             and _same(ct.oor, t.oor) and c.edges == t.h.edges
+                             and c is not t.h and c.bins is not t.h.bins,
+                             "history:copy-differs-from-original",
+                             "%s of a histogram over %r after %r: bins %r n_out_of_range %r, the "
+                             "original has %r and %r" % (how, r["edges"], hist, ct.ref, ct.oor,
+                                                         t.ref, t.oor)):
+                return
+            tracks.append(ct)
+        # the fill itself
+        t = rng.choice(tracks)
+        w = rng.choice([None, 1, 2, 3, -1, 5])
+        coord = pt[0] if (dim == 1 and r["form"] == "flat") else list(pt)
+        cell = mon.scan_cell(E, pt)
+        wv = 1 if w is None else w
+        if element and t is tracks[0]:
+            el.fill(coord)
+            wv = 1
+        elif w is None:
+            t.h.fill(coord)
+        else:
+            t.h.fill(coord, w)
+        if cell is None:
+            t.oor = t.oor + wv
+            n_out += 1
+        else:
+            k = mon.flat_index(cell, nbins)
+            t.ref[k] = t.ref[k] + wv
+            n_in += 1
+        hist.append("%s.fill(%r, %r)" % (t.name, coord, w))
+        obs.count("fills")
+        for tt in tracks:
+            got = flat(tt.h)
+            obs.count("reference_model_cells_compared", len(got))
+            if not all(_same(a, b) for a, b in zip(got, tt.ref)) \
+                    or not _same(tt.h.n_out_of_range, tt.oor):
+                bad = [(mon.unflat_index(i, nbins), a, b)
+                       for i, (a, b) in enumerate(zip(got, tt.ref)) if not _same(a, b)][:4]
+                obs.fail("history:%s-differs-after-%s"
+                         % ("bins" if bad else "n_out_of_range",
+                            "fill" if tt is t else "fill-into-another-histogram"),
+                         "histogram over %r, history %r: %s has cells (index, real, expected) %r, "
+                         "n_out_of_range %r expected %r"
+                         % (r["edges"], hist[-12:], tt.name, bad, tt.h.n_out_of_range, tt.oor))
+                return
+    if element:
+        res = list(el.compute())
+        obs.check(len(res) == 1
+                  and all(_same(a, b) for a, b in zip(flat(res[0][0]), tracks[0].ref))
+                  and _same(res[0][0].n_out_of_range, tracks[0].oor),
+                  "history:element-result-differs",
+                  "Histogram element over %r after %r yields %r" % (r["edges"], hist[-12:], res))
+    obs.count("oracle_evaluations")
+    if n_in and n_out and len(pts) >= 5:
+        obs.nontrivial = True
 
 
 def _bad_edges(r, obs, lena):
